@@ -9,6 +9,7 @@ import LaytheVerif.Lemmas.ClassBuild
 import LaytheVerif.Lemmas.ClassStore
 import LaytheVerif.Model.ClassSpec
 import LaytheVerif.Model.ClassLang
+import LaytheVerif.Model.ClassCompile
 namespace LaytheVerif.C03
 open LaytheVerif.Classes LaytheVerif.ClassSpec
 
@@ -222,18 +223,19 @@ theorem buildChain_nfields_ge (root : Cls) (h : ClsWF root) (chain : List (Strin
   | cons p chain ih => exact Nat.le_trans ih (buildCls_nfields_ge _ _ _ _ (buildChain_wf root h chain))
 
 /-- **C03_fixed_index_valid.**  Let class `K` have no explicit superclass and let its implicit
-superclass `object` have no fields (true of the built-in `Object`).  If, at any point while `K`'s
+superclass `object` have no fields (true of the built-in `Object`, which is what `K` inherits from
+whatever the program declares: `C03_implicit_super_is_builtin` below).  If, at any point while `K`'s
 initialiser is being compiled (after any prefix `n` of its `self.f = …` assignments) or afterwards,
 the compiler decides on the fixed-index instruction `GetProp(p)/SetProp(p)` for `self.f`, then at run
 time `p` is the index of `f` in `K` **and in every descendant of `K` at any depth**, and it is a
 valid slot of every instance of those classes.  (With an explicit superclass the compiler never
 emits the fixed-index form: `propertyAccess_explicit`.) -/
 theorem C03_fixed_index_valid (object : Cls) (hobj : ClsWF object) (hnof : object.fields = [])
-    (name : String) (b : ClassBody) (n : Nat) (f : String) (p : Nat)
+    (name : String) (supId : Nat) (b : ClassBody) (n : Nat) (f : String) (p : Nat)
     (hacc : propertyAccess (some ⟨compileInitFields (b.initFields.take n), false⟩) f = .fixed p)
     (desc : List (String × ClassBody)) :
-    (buildChain (buildCls name 0 object b) desc).getFieldIndex f = some p ∧
-    p < (buildChain (buildCls name 0 object b) desc).nfields := by
+    (buildChain (buildCls name supId object b) desc).getFieldIndex f = some p ∧
+    p < (buildChain (buildCls name supId object b) desc).nfields := by
   have hpos : findKnownField (compileInitFields b.initFields) f = some p := by
     apply compileInitFields_prefix b.initFields n
     unfold propertyAccess at hacc
@@ -241,17 +243,88 @@ theorem C03_fixed_index_valid (object : Cls) (hobj : ClsWF object) (hnof : objec
     split at hacc
     · next q hq => simp at hacc; rw [hq, hacc]
     · cases hacc
-  have hK : (buildCls name 0 object b).getFieldIndex f = some p := by
+  have hK : (buildCls name supId object b).getFieldIndex f = some p := by
     unfold Cls.getFieldIndex
-    rw [buildCls_fields name 0 object b hobj, hnof]
+    rw [buildCls_fields name supId object b hobj, hnof]
     have := foldl_addField_new (compileInitFields b.initFields) { (Cls.bare name) with fields := [] }
       (compileInitFields_nodup _) (by intro x _; simp [Tbl.get]) f p hpos
     simpa [Cls.getFieldIndex] using this
-  have hwfK := buildCls_wf name 0 object b hobj
+  have hwfK := buildCls_wf name supId object b hobj
   refine ⟨buildChain_preserves _ hwfK desc f p hK, ?_⟩
-  have h1 : p < (buildCls name 0 object b).nfields :=
+  have h1 : p < (buildCls name supId object b).nfields :=
     fieldsWF_range _ hwfK.fields f p (by simpa [Cls.getFieldIndex] using hK)
   exact Nat.lt_of_lt_of_le h1 (buildChain_nfields_ge _ hwfK desc)
+
+/-! ## which class a declaration inherits from -/
+
+/-- **C03_implicit_super_is_builtin.**  A class declared without a superclass inherits from the symbol
+`Object` of the *global module* — for every set of locals in scope and every set of module-level
+declarations of the program (`sc` is arbitrary: a parameter, `let`, function or class called `Object`
+at any nesting level, or none), and whatever an ordinary read of the name `Object` would give there
+(`env.lexical` is arbitrary and not consulted).  `hcopy` says that the module's copy of the global
+symbol, which the module prologue fills by `LoadGlobal; SetModSym`, still holds it — the program has not
+assigned `Object = …;` without declaring the name (see `C03_witness_rebound_module_copy`). -/
+theorem C03_implicit_super_is_builtin (sc : NameScope) (env : SuperEnv)
+    (hcopy : env.moduleObject = some env.globalObject) :
+    superValue env (superLoad sc none) = some env.globalObject := by
+  simp only [superLoad]
+  cases isGlobal sc "Object" <;> simp [superValue, hcopy]
+
+/-- … and as soon as the program uses the name itself — a local anywhere up the enclosing functions or
+a declaration at module level — not even the module's copy is read: no hypothesis at all. -/
+theorem C03_implicit_super_under_own_object (sc : NameScope) (env : SuperEnv)
+    (h : "Object" ∈ sc.locals ∨ "Object" ∈ sc.declared) :
+    superValue env (superLoad sc none) = some env.globalObject := by
+  have : isGlobal sc "Object" = false := by
+    unfold isGlobal
+    rcases h with h | h <;> simp [h]
+  simp [superLoad, this, superValue]
+
+/-- an explicit superclass is an ordinary variable read (so `class A : Object` under a local `Object`
+inherits from the local, as the source says) -/
+theorem C03_explicit_super_is_lexical (sc : NameScope) (env : SuperEnv) (p : String) :
+    superValue env (superLoad sc (some p)) = env.lexical p := rfl
+
+/-- the Spec evaluator says the same: without a parent in the source the chain ends (the built-in
+`Object`), for every environment -/
+theorem C03_spec_implicit_parent (env : List (String × ClassLang.Val)) :
+    ClassLang.resolveSuper env none = pure none := rfl
+
+/-- the `Inherit` event of the compile trace (`ClassCompile.inheritEvent`, compared with the real
+compiler's instruction stream on every generated program) is this decision -/
+theorem inheritEvent_implicit (sc : NameScope) :
+    ClassCompile.inheritEvent sc none = (if isGlobal sc "Object" then "Im" else "IO") := by
+  simp only [ClassCompile.inheritEvent, superLoad]
+  cases isGlobal sc "Object" <;> simp
+
+/-- **C03_fixed_index_valid_any_scope.**  `C03_fixed_index_valid` for the class object the VM builds,
+with the hypothesis "the implicit superclass has no fields" discharged for every program: whatever
+names are in scope (`sc`) and whatever they are bound to (`env.lexical`), executing the emitted
+declaration of a class without parent — superclass pushed by `superLoad sc none`, then `Class`,
+`Inherit`, `Method`, `Field*`, … (`Store.declareClass`) — on a store whose global `Object` has no fields
+yields a class in which every fixed index the compiler chose for `self.f` is the index of `f`, a valid
+slot, and stays so in every descendant. -/
+theorem C03_fixed_index_valid_any_scope (sc : NameScope) (env : SuperEnv)
+    (hcopy : env.moduleObject = some env.globalObject)
+    (s s' : Store) (object : Cls) (hobj : s.get? env.globalObject = some object) (hwf : ClsWF object)
+    (hnof : object.fields = [])
+    (name : String) (b : ClassBody) (n : Nat) (f : String) (p : Nat)
+    (hacc : propertyAccess (some ⟨compileInitFields (b.initFields.take n), false⟩) f = .fixed p)
+    (sup c : Nat) (hsup : superValue env (superLoad sc none) = some sup)
+    (h : s.declareClass name sup b = some (s', c)) :
+    sup = env.globalObject ∧
+    ∃ cc, s'.get? c = some cc ∧ cc.getFieldIndex f = some p ∧ p < cc.nfields ∧
+      ∀ desc, (buildChain (buildCls name sup object b) desc).getFieldIndex f = some p ∧
+              p < (buildChain (buildCls name sup object b) desc).nfields := by
+  have hs : sup = env.globalObject := by
+    rw [C03_implicit_super_is_builtin sc env hcopy] at hsup
+    exact (Option.some.inj hsup).symm
+  subst hs
+  obtain ⟨_, h2, _⟩ := declareClass_eq_buildCls s s' name env.globalObject c object b hobj h
+  have key := C03_fixed_index_valid object hwf hnof name env.globalObject b n f p hacc
+  refine ⟨rfl, _, h2, ?_, ?_, key⟩
+  · simpa [Cls.getFieldIndex, buildChain] using (key []).1
+  · simpa [Cls.nfields, buildChain] using (key []).2
 
 /-- with an explicit superclass, or for a name the initialiser never assigns, or for a receiver other
 than `self`, the compiler falls back to the by-name instructions -/
@@ -526,13 +599,34 @@ example :
     VM.opInvoke vm "foo" 0 = .error .property "Undefined property foo on class Object." ∧
     VM.opGetPropByName vm "foo" = .error .runtime "Undefined property foo on class Object." := by decide
 
-/-- witness for the hypothesis `object.fields = []` (known finding D26): the implicit superclass is
-whatever the *name* `Object` denotes; if that class has a field, the compiler's fixed index `0` for
-`x` is not the runtime index `1`. -/
-theorem C03_witness_shadowed_object :
+/-- non-vacuity of the scope hypotheses: the witness programs of the repaired finding D26 — a local
+`let Object = Base;` in the enclosing function, and a module-level `class Object {..}` — and a plain program -/
+example : superLoad { locals := ["a", "Object", "f"], declared := ["Base", "f"] } none = .loadGlobal := by decide
+example : superLoad { locals := [], declared := ["Object"] } none = .loadGlobal := by decide
+example : superLoad { locals := ["x"], declared := ["A"] } none = .moduleCopy := by decide
+example : superLoad { locals := ["Object"], declared := [] } (some "Object") = .lexical "Object" := by decide
+example : ClassCompile.inheritEvent { locals := ["Object"], declared := [] } (some "Object") = "Il" ∧
+    ClassCompile.inheritEvent { locals := ["Object"], declared := [] } none = "IO" ∧
+    ClassCompile.inheritEvent {} none = "Im" := by decide
+
+/-- what the repaired finding D26 looked like, kept as the reason why the superclass matters: had the
+class `A { init() { self.x = 1; } }` inherited from a class with a field (`let Object = Base;`), the
+compiler's fixed index `0` for `x` would not be the runtime index `1`.  By
+`C03_implicit_super_under_own_object` no declaration of the program can bring that about any more. -/
+example :
     let fakeObject : Cls := (Cls.bare "Base").addField "q"
     propertyAccess (some ⟨compileInitFields ["x"], false⟩) "x" = .fixed 0 ∧
     (buildCls "A" 0 fakeObject { initFields := ["x"], init := some 1, methods := [], statics := [] }).getFieldIndex "x" = some 1 := by
+  decide
+
+/-- witness for the hypothesis `hcopy` (known finding D26b): a program that never declares `Object` but
+assigns it (`Object = Base;`) overwrites the module's copy of the global symbol (here with class 7);
+a later class without parent, declared where nothing shadows the name, reads that copy.  Under any
+declaration of the name the copy is not read. -/
+theorem C03_witness_rebound_module_copy :
+    let env : SuperEnv := { globalObject := 0, moduleObject := some 7, lexical := fun _ => none }
+    superValue env (superLoad {} none) = some 7 ∧
+    superValue env (superLoad { locals := ["Object"] } none) = some 0 := by
   decide
 
 /-- witness for known finding D25: in `o.f op= e` the compiler passes the *enclosing* class to
